@@ -181,18 +181,28 @@ def run_poll(world, rows, profile, client=None, role="primary", shared_args=None
                 ids = dict(election_id=world["election_id"], office=world["office"], unit_type=world["unit_type"])
                 ids.update(p.get("request_ids") or {})
                 if not p.get("summary_only"):
+                    kw = dict(prediction_intervals=list(p["prediction_intervals"]), percent_reporting_threshold=p["threshold"],
+                              geographic_unit_type=ids["unit_type"], **extra_kw, **client_kwargs(p))
+                    if p.get("omit_defaults"):
+                        # call style: every keyword whose value is the documented default is left out
+                        from elexmodel import client as _cm
+
+                        defaults = dict(prediction_intervals=[0.7, 0.9], percent_reporting_threshold=100, geographic_unit_type="county",
+                                        pi_method="nonparametric", features=[], fixed_effects={}, handle_unreporting="drop",
+                                        lhs_called_contests=[], rhs_called_contests=[], stop_model_call=[], model_parameters={},
+                                        aggregates=list(getattr(_cm, "DEFAULT_AGGREGATES", {}).get(ids["office"], [])) or None)
+                        dropped = [k_ for k_, v_ in kw.items() if k_ in defaults and (v_ == defaults[k_] or (k_ == "fixed_effects" and v_ in ([], {})))]
+                        for k_ in dropped:
+                            kw.pop(k_)
+                        rec.extra["defaults_omitted"] = sorted(dropped)
                     res = client.get_estimates(
                         cur,
                         ids["election_id"],
                         ids["office"],
                         list(p["estimands"]),
-                        prediction_intervals=list(p["prediction_intervals"]),
-                        percent_reporting_threshold=p["threshold"],
-                        geographic_unit_type=ids["unit_type"],
                         raw_config=cfg,
                         preprocessed_data=pre,
-                        **extra_kw,
-                        **client_kwargs(p),
+                        **kw,
                     )
                     rec.tables = {k: v.copy() for k, v in res.items()}
                 if national_summary is not None:
